@@ -5,9 +5,7 @@
    printer is a pure function of (schema, options) by construction; that the
    implementation is one too is checked by the call-history correspondence. *)
 From PyGql Require Export Schema.SdlSchema Schema.SdlBuild.
-
-Definition lit (x : string) : str := str_of_string x.
-Arguments lit x%string.
+From PyGql Require Export Lang.PrinterModel.
 
 Definition cat (l : list str) : str := concat l.
 
@@ -98,84 +96,16 @@ Definition wrapped_lines (lines : list str) (max_len : nat) : list str :=
   flat_map (fun line => if Nat.leb (length line) max_len then [line]
                         else wrap_entries max_len [] (split_words [] line)) lines.
 
-(* json.dumps(s) with ensure_ascii=True *)
-Definition hex_digit (n : N) : N := if (n <? 10)%N then (48 + n)%N else (87 + n)%N.
-Definition hex4 (c : N) : str :=
-  [hex_digit (N.div c 4096 mod 16); hex_digit (N.div c 256 mod 16);
-   hex_digit (N.div c 16 mod 16); hex_digit (c mod 16)]%N.
-Definition u_escape (c : N) : str := (92 :: 117 :: hex4 c)%N.
-
-Definition json_char (c : N) : str :=
-  if (c =? 34)%N then [92; 34]%N
-  else if (c =? 92)%N then [92; 92]%N
-  else if (c =? 10)%N then [92; 110]%N
-  else if (c =? 13)%N then [92; 114]%N
-  else if (c =? 9)%N then [92; 116]%N
-  else if (c =? 8)%N then [92; 98]%N
-  else if (c =? 12)%N then [92; 102]%N
-  else if (c <? 32)%N then u_escape c
-  else if (c <? 127)%N then [c]
-  else if (c =? 127)%N then [c]
-  else if (c <? 65536)%N then u_escape c
-  else let v := (c - 65536)%N in
-       u_escape (55296 + N.div v 1024)%N ++ u_escape (56320 + v mod 1024)%N.
-
-Definition json_string (s : str) : str := [34%N] ++ flat_map json_char s ++ [34%N].
-
 (* ------------------------------------------------------------------ *)
-(* lang/printer.py: values and directive applications                   *)
+(* lang/printer.py: values and directive applications are printed by
+   print_ast(node) (indent 2), i.e. by the ASTPrinter model of C03
+   (Lang/PrinterModel.v: json.dumps(ensure_ascii=False), _block_string, lists,
+   objects, @name(args)) *)
 
-Fixpoint contains_nl (s : str) : bool :=
-  match s with [] => false | c :: r => (c =? NLc)%N || contains_nl r end.
-
-(* _indent(s, indent) = indent + s.replace("\n", "\n" + indent)  (s non empty) *)
-Definition indent_lines (ind : str) (s : str) : str :=
-  match s with
-  | [] => []
-  | _ => ind ++ flat_map (fun c => if (c =? NLc)%N then NLc :: ind else [c]) s
-  end.
-
-(* _block_string(value, "  ") as used by print_ast(node) (indent = 2); an
-   empty value raises IndexError in the code (DESIGN row 10) and is printed
-   here like any other multi-line value *)
-Definition block_string (v : str) : str :=
-  let escaped := escape_triple v in
-  match v with
-  | c :: _ =>
-      if ((c =? 32)%N || (c =? 9)%N) && negb (contains_nl v)
-      then lit """""""" ++ (if ends_with_quote escaped then escaped ++ nl else escaped) ++ lit """"""""
-      else lit """""""" ++ nl ++ indent_lines (lit "  ") escaped ++ nl ++ lit """"""""
-  | [] => lit """""""" ++ nl ++ nl ++ lit """"""""
-  end.
-
-Fixpoint print_value (v : value) : str :=
-  match v with
-  | VVar n _ => 36%N :: n_val n
-  | VInt s _ | VFloat s _ | VEnum s _ => s
-  | VString s b _ => if b then block_string s else json_string s
-  | VBool b _ => if b then lit "true" else lit "false"
-  | VNull _ => lit "null"
-  | VList vs _ =>
-      lit "[" ++ join (lit ", ")
-        (filter (fun x => negb (match x with [] => true | _ => false end)) (map print_value vs))
-      ++ lit "]"
-  | VObject fs _ =>
-      lit "{" ++ join (lit ", ")
-        ((fix go (fs : list (name * value * loc)) : list str :=
-            match fs with
-            | [] => []
-            | (k, x, _) :: r => (n_val k ++ lit ": " ++ print_value x) :: go r
-            end) fs)
-      ++ lit "}"
-  end.
-
-Definition print_directive (d : directive) : str :=
-  lit "@" ++ n_val (d_name d) ++
-  match d_args d with
-  | [] => []
-  | args => lit "(" ++ join (lit ", ")
-              (map (fun a => n_val (a_name a) ++ lit ": " ++ print_value (a_val a)) args) ++ lit ")"
-  end.
+Definition vcfg : cfg := Cfg (lit "  ") true.
+Definition print_value (v : value) : str := pr_value vcfg v.
+Definition print_directive (d : directive) : str := pr_directive vcfg d.
+Definition json_string (s : str) : str := json_quote s.
 
 (* ------------------------------------------------------------------ *)
 (* utilities/ast_node_from_value.py                                     *)
